@@ -13,25 +13,6 @@ EXPLANATION = ("L3: with the implementation's D the exact integrals <C-D, N_i> (
 ASSUMPTIONS = ["polynomial spline spaces (the rational branch of fit_curve uses inexact quadrature and is outside the statement's spline space S)"]
 
 
-def rank(rows):
-    rows = [list(r) for r in rows]
-    rk, col = 0, 0
-    ncols = len(rows[0]) if rows else 0
-    while rk < len(rows) and col < ncols:
-        piv = next((i for i in range(rk, len(rows)) if rows[i][col] != 0), None)
-        if piv is None:
-            col += 1
-            continue
-        rows[rk], rows[piv] = rows[piv], rows[rk]
-        for i in range(len(rows)):
-            if i != rk and rows[i][col] != 0:
-                f = rows[i][col] / rows[rk][col]
-                rows[i] = [a - f * b for a, b in zip(rows[i], rows[rk])]
-        rk += 1
-        col += 1
-    return rk
-
-
 def run_case(ctx, case):
     rec, drv = ctx["rec"], ctx["drv"]
     c = de(case)
